@@ -37,6 +37,7 @@ RULES = {
     'C13.i': 'the conflict-record lister matches what the record writer writes: with the key left empty (the "list all" call of the arbiter registration) the pattern text occurs in the constant head of every record key; with a key, the text after the key hole is a prefix of the writer template\'s text after its key hole',
     'C13.k': 'the conflict records of a key are handled in arrival order: the key listing they are read from is sorted (C01.c) — the '
              'Arbiter arm queues a new conflict behind `.last()` of that list, register_arbiter replays it in list order',
+    'C13.l': 'a client cannot present the in-conflict marker as its version (C02.h, repeated): such a write is stored as it comes, over a pending conflict, with no record and no notice to the arbiter',
 }
 
 
@@ -44,6 +45,9 @@ def run(ck, m):
     _run(ck, m)
     watchers_monotone(ck, m)
     lister_covers_records(ck, m)
+    from nl import alias as _alias
+    from props import C02 as _C02
+    _alias.repeat(ck, m, 'C02', ('C02.h',), 'C13.l', runner=_C02.marker_unforgeable)
     # "every later write queues behind the previous conflict": the Arbiter arm takes `.last()` of the record list and register_arbiter
     # replays the list in order — both rely on the key listing being sorted (record names end in increasing op ids).  C01.c's verdict
     # on the sort is repeated here.
